@@ -12,10 +12,26 @@ from .common import Driver, F, unF, close, same_bits
 
 RULE = ("translator validation: every generated formula on ~300 random + boundary points (T -2..40, S 0..42, buoyancy, "
         "diameters, all days of year x hours, lon -180..180, lat -89.9..89.9, depth >= 0, k >= 0); oracles on grids of the "
-        "same ranges; swimming directions from one-update runs of larvae, saithe, salmon_lice, shrimp with mixing off. "
-        "Non-trivial: every evaluated point; distinct by function and argument tuple.")
+        "same ranges; swimming directions from one-update runs and histories of larvae, saithe, salmon_lice, shrimp, egg "
+        "without mixing (mixing configured off, or the normal draw of the particle equal to 0: saithe's mixing is "
+        "hard-coded, its draws are forced to 0 in ~60% of the cases). Timestamps: any day of 2020 (leap, incl. Feb 29 and "
+        "day 366) / 2021, any hour, minutes and seconds, units s (what LADiM hands out) / us / ms / m. Module runs: "
+        "per-particle positions on a stub grid with lon = lon0 + lonx*x, lat = lat0 + laty*y (lon0 -180..180 incl. the "
+        "antimeridian, lat0 -80..80 both hemispheres); lice salinities inside the tolerance windows (20..28 copepodids, "
+        "30..32 nauplii, incl. 28, 30, 32 exactly); larvae / lice placed next to (and up to half / twice as deep as) the depth "
+        "where the attenuated light equals the preference / 0.01, lice also at twilight longitudes chosen so that this "
+        "depth lies inside 0..19 m; larvae overrides of single parameters (light, swim_speed, egg_diam, "
+        "init_larvae_weight) and overrides with the value 0 (light; swim_speed: passive larvae must not move; min_depth); "
+        "shrimp judged after its (recorded) mixing step for every stage and once per case through "
+        "the `state['time']` fallback (state without `timestamp`); light oracle also at the sub-solar / anti-solar "
+        "points. Non-trivial: every evaluated point; distinct by function and argument tuple.")
 ASSUMPTIONS = ["values downstream of exp/log/sin/cos/arcsin/pow compared with relative tolerance 1e-9 (numpy SIMD vs libm)",
-               "float-only caveat not modelled: arcsin of a rounding overshoot 1+ulp"]
+               "float-only caveat not modelled: arcsin of a rounding overshoot 1+ulp (probed at the sub-solar and "
+               "anti-solar points and their floating-point neighbours by the light oracle)",
+               "a louse's salinity tolerance is the documented 28 - 8r (copepodid) / 32 - 2r (nauplius) of its recorded "
+               "uniform draw r; the r-independent clauses (below 20 / 30: down, from 28 / 32: not down) are judged separately",
+               "sun height of surface_light is not returned by the code: it is observed through the light value "
+               "(linear twilight bands; day band proportional to sin(height))"]
 
 
 def M(name):
@@ -23,10 +39,16 @@ def M(name):
 
 
 def rnd_ts(rng):
-    doy = rng.choice([1, 80, 172, 266, 355, rng.randrange(1, 366)])
+    """(timestamp, day of year, hour): any day of 2020 (leap year: Feb 29, day 366) or 2021, any hour, with minutes and
+    seconds (the formulas use the hour of the clock only); numpy unit s (LADiM's `state.timestamp`), us, ms or m"""
+    year = rng.choice([2020, 2021])
+    ndays = 366 if year == 2020 else 365
+    doy = rng.choice([1, 60, 80, 172, 266, 355, ndays, rng.randrange(1, ndays + 1), rng.randrange(1, ndays + 1)])
     hour = rng.randrange(24)
-    d = datetime.datetime(2021, 1, 1) + datetime.timedelta(days=doy - 1, hours=hour)
-    return np.datetime64(d), float(doy), float(hour)
+    minute, second = (0, 0) if rng.random() < 0.4 else (rng.randrange(60), rng.choice([0, 59, rng.randrange(60)]))
+    d = datetime.datetime(year, 1, 1) + datetime.timedelta(days=doy - 1, hours=hour, minutes=minute, seconds=second)
+    unit = rng.choice(["s", "s", "us", "ms", "m"])
+    return np.datetime64(d, unit), float(doy), float(hour)
 
 
 def translator_validation(ctx, drv):
@@ -144,7 +166,9 @@ def oracles(ctx):
         T = res["after"]["temp"]; S = res["after"]["salt"]
         v = lar.sinkvel_egg(eos.viscosity(T, S), eos.calc_density(T, S), eos.calc_density(T, case["buoy"]), case["diam"])
         ctx.case(key=("eggcopy", repr(case["buoy"].tolist()), case["diam"]), nontrivial=True); ctx.branch("oracle.egg_vs_larvae")
-        ctx.oracle(np.allclose(W, v, rtol=1e-6, atol=1e-10), "C16.sink_speed.copies_differ", "ladim_plugins/egg/ibm.py",
+        # W is read off as (100 + W*1) - 100: absolute rounding error <= ulp(100) = 1.4e-14; the copies differ by the
+        # 1e-16 regulariser of the larvae copy (relative effect < 1e-13 for the density differences generated here)
+        ctx.oracle(np.allclose(W, v, rtol=1e-9, atol=1e-13), "C16.sink_speed.copies_differ", "ladim_plugins/egg/ibm.py",
                    "egg module W=%r, larvae module %r" % (W.tolist(), v.tolist()), dict(case=ibmrun.case_summary(case)))
     # light: finite, bounded, decaying; band continuity
     site_li = "ladim_plugins/utils/light.py"
@@ -159,6 +183,7 @@ def oracles(ctx):
         ctx.oracle(bool(np.all((L >= 1.15e-5 * (1 - 1e-12)) & (L <= 1505.76 * (1 + 1e-12)))), "C16.light.out_of_bounds", site_li,
                    "surface light outside [1.15e-5, 1505.76]: min %r max %r" % (float(L.min()), float(L.max())), cs)
         h = M("shrimp.ibm").sunheight(ts, lons, np.full_like(lons, lat))
+        copies_oracle(ctx, ts, lons, np.full_like(lons, lat), L, h, cs)
         edges = {0.0: 5.76, -6.0: 0.048, -12.0: 1.15e-4, -18.0: 1.15e-5}
         slope_below = {0.0: (5.76 - 0.048) / 6, -6.0: (0.048 - 1.15e-4) / 6, -12.0: (1.15e-4 - 1.15e-5) / 6, -18.0: 0.0}
         for e, val in edges.items():
@@ -178,35 +203,190 @@ def oracles(ctx):
         Ld = light.light(ts, lon1, lat1, depth=dep, extinction_coef=k)
         ctx.oracle(np.allclose(Ld, Ld[0] * np.exp(-k * dep), rtol=1e-12, atol=0) and np.all(np.diff(Ld) <= 0),
                    "C16.light.decay", site_li, "light(depth) != light(0)*exp(-k*depth): %r" % Ld.tolist(), dict(cs, k=k))
+        # no depth given: the light at the surface (exp(-k*0) = 1 exactly) is the surface light
+        ctx.oracle(np.array_equal(light.light(ts, lon1, lat1), light.surface_light(ts, lon1, lat1))
+                   and np.array_equal(light.light(ts, lon1, lat1, extinction_coef=k), light.surface_light(ts, lon1, lat1)),
+                   "C16.light.decay", site_li, "light() without a depth is not the surface light", dict(cs, k=k))
+        # sub-solar and anti-solar points (sun height +-90 degrees, |sin| rounds to 1 +- ulp) and their neighbours
+        for lon_p, lat_p, tag in solar_points(doy, hour):
+            lat_n = np.array([lat_p, np.nextafter(lat_p, 90.0), np.nextafter(lat_p, -90.0), lat_p * (1 + 1e-15), lat_p * (1 - 1e-15)])
+            lon_n = np.array([lon_p, lon_p, lon_p, np.nextafter(lon_p, 0.0), np.nextafter(lon_p, 0.0)])
+            Lp = light.surface_light(ts, lon_n, lat_n)
+            ctx.case(key=("light_solar_point", str(ts), tag), nontrivial=True); ctx.branch("oracle.light.%s_point" % tag)
+            csp = dict(time=str(ts), lon=lon_n.tolist(), lat=lat_n.tolist(), point=tag)
+            ctx.oracle(bool(np.all(np.isfinite(Lp))), "C16.light.not_finite", site_li,
+                       "non-finite surface light at the %s point: %r" % (tag, Lp.tolist()), csp)
+            ctx.oracle(bool(np.all((Lp >= 1.15e-5 * (1 - 1e-12)) & (Lp <= 1505.76 * (1 + 1e-12)))), "C16.light.out_of_bounds", site_li,
+                       "surface light outside [1.15e-5, 1505.76] at the %s point: %r" % (tag, Lp.tolist()), csp)
+            copies_oracle(ctx, ts, lon_n, lat_n, Lp, M("shrimp.ibm").sunheight(ts, lon_n, lat_n), csp, day_band=False)
+
+
+def solar_points(doy, hour):
+    """(lon, lat, tag) of the points where the sun is in the zenith / nadir for the code's declination and sun time
+    (input generation only: the constants are those of the documented Skartveit & Olseth formula)"""
+    rad = np.pi / 180.0
+    sindelta = 0.3979 * np.sin(0.9856 * rad * (doy - 80) + 1.9171 * rad * (np.sin(0.9856 * rad * doy) - 0.98112))
+    decl = float(np.arcsin(sindelta) / rad)
+
+    def wrap(lon):
+        while lon > 180.0:
+            lon -= 360.0
+        while lon < -180.0:
+            lon += 360.0
+        return lon
+    return [(wrap(180.0 - 15.0 * hour), decl, "subsolar"), (wrap(-15.0 * hour), -decl, "antisolar")]
+
+
+def copies_oracle(ctx, ts, lon, lat, L, h, cs, day_band=True):
+    """The independent copies of the light / sun-height formulas give the same values.
+    * the surface light the salmon lice module calls (LADiM's `ladim.ibms.light` copy until fix 2a83b24, the package's
+      own function since) == `utils.light.surface_light`: the same floating-point expression, compared exactly;
+    * `shrimp.sunheight` vs the sun height inside `surface_light`, which is not returned and is observed through the
+      light: below the horizon the light is a linear function of the height in each twilight band (and 1.15e-5 below
+      -18 degrees), above it it is 5.76 + c*sin(height) with c = 1500 / sin(noon height) the same for all longitudes
+      of one latitude and time.  Relative tolerance 1e-9: the two copies are the same expression, the comparison goes
+      through one more multiplication / sin (a few ulp)."""
+    ctx.branch("oracle.light_copies")
+    L2 = ibmrun.lice_surface_light()(ts, lon, lat)
+    ctx.oracle(np.array_equal(L, L2), "C16.light.copies_differ", "ladim_plugins/salmon_lice/ibm.py",
+               "the surface light used by salmon_lice != utils.light.surface_light, max difference %r"
+               % float(np.max(np.abs(L - L2))), cs)
+    if not (np.all(np.isfinite(h)) and np.all(np.isfinite(L))):
+        return
+    s1, s2, s3 = (5.76 - 0.048) / 6, (0.048 - 1.15e-4) / 6, (1.15e-4 - 1.15e-5) / 6
+    want = np.where(h >= -6, s1 * (6 + h) + 0.048, np.where(h >= -12, s2 * (12 + h) + 1.15e-4,
+                    np.where(h >= -18, s3 * (18 + h) + 1.15e-5, 1.15e-5)))
+    tw = h < 0
+    bad = np.flatnonzero(tw & ~np.isclose(L, want, rtol=1e-9, atol=0))
+    ctx.oracle(len(bad) == 0, "C16.sunheight.copies_differ", "ladim_plugins/shrimp/ibm.py",
+               "below the horizon: light %r is not the band value %r of shrimp.sunheight %r (lon %r)"
+               % (L[bad[:3]].tolist(), want[bad[:3]].tolist(), h[bad[:3]].tolist(), np.asarray(lon)[bad[:3]].tolist()), cs)
+    bad = np.flatnonzero(~tw & ~(L >= 5.76 * (1 - 1e-12)))
+    ctx.oracle(len(bad) == 0, "C16.sunheight.copies_differ", "ladim_plugins/shrimp/ibm.py",
+               "shrimp.sunheight %r >= 0 but light %r is below the day band" % (h[bad[:3]].tolist(), L[bad[:3]].tolist()), cs)
+    if day_band and np.any(~tw):
+        j = int(np.argmax(h))
+        if h[j] > 1.0:
+            ctx.branch("oracle.sunheight_copy.day_band")
+            c = (L[j] - 5.76) / np.sin(np.radians(h[j]))
+            wantd = 5.76 + c * np.sin(np.radians(h))
+            bad = np.flatnonzero(~tw & ~np.isclose(L, wantd, rtol=1e-9, atol=0))
+            ctx.oracle(len(bad) == 0, "C16.sunheight.copies_differ", "ladim_plugins/shrimp/ibm.py",
+                       "above the horizon: light %r is not 5.76 + c*sin(shrimp.sunheight %r) = %r with c = %r from the "
+                       "highest sun of this latitude" % (L[bad[:3]].tolist(), h[bad[:3]].tolist(), wantd[bad[:3]].tolist(), float(c)), cs)
+
+
+def no_mixing(case, res, i):
+    """the update of particle i had no random displacement: mixing configured off, or its recorded normal draw is
+    exactly 0 (saithe's mixing coefficient is hard-coded; 0 is also among the injected boundary values)"""
+    if not case["D"]:
+        return True
+    xi = res.get("xi")
+    return xi is not None and float(np.asarray(xi)[i]) == 0.0
+
+
+def egg_speed(T, S, buoy, diam):
+    """sinking speed (positive down) of an egg from the formula functions judged by `oracles` (utils.eos, sinkvel_egg)
+    together with the densities of the egg and of the water"""
+    eos = M("utils.eos"); lar = M("larvae.ibm")
+    A = lambda x: np.array([float(x)])
+    rw = float(eos.calc_density(A(T), A(S))[0]); re_ = float(eos.calc_density(A(T), A(buoy))[0])
+    with np.errstate(all="ignore"):
+        v = float(np.asarray(lar.sinkvel_egg(eos.viscosity(A(T), A(S)), A(rw), A(re_), float(diam)))[0])
+    return v, rw, re_
 
 
 def swim_oracle(ctx, name, case, res):
     b, a, n = res["before"], res["after"], res["n"]
     site = "ladim_plugins/%s/ibm.py" % name
+    dt = float(case["dt"])
     for i in range(n):
         cs = dict(module=name, case=ibmrun.case_summary(case), particle=i, before={k: v[i] for k, v in b.items()},
                   after={k: v[i] for k, v in a.items()})
         dz = a["z"][i] - b["z"][i]
+        z0 = float(b["z"][i])
         if name in ("larvae", "saithe"):
-            if res["meta"]["is_egg"][i] or case["D"]:
+            if not no_mixing(case, res, i):
                 continue
+            if case["D"]:
+                ctx.branch("swim.%s.judged_with_zero_draw" % name)
             sp = case["sp"]
             lo, hi = float(sp["min_depth"]), float(sp["max_depth"])
+            if res["meta"]["is_egg"][i]:
+                # eggs inside the larvae modules: lighter than the water -> up, denser -> down, neutral -> no movement;
+                # larvae eggs are kept inside [min_depth, max_depth], saithe eggs only below the surface
+                v, rw, re_ = egg_speed(a["temp"][i], a["salt"][i], case["buoy"][i], sp["egg_diam"])
+                floor, ceil = (0.0, float("inf")) if name == "saithe" else (lo, hi)
+                step = v * dt
+                csd = dict(cs, dens_water=rw, dens_egg=re_, speed=v)
+                if re_ == rw:
+                    ctx.branch("swim.%s.egg_neutral" % name)
+                    if floor <= z0 <= ceil:
+                        ctx.oracle(dz == 0, "C16.%s.egg_direction" % name, site, "neutrally buoyant egg moved: dZ=%r" % dz, csd)
+                    continue
+                if abs(step) <= 1e-9 * (1 + abs(z0)):
+                    ctx.branch("swim.%s.egg_step_below_resolution" % name); continue    # lost in the rounding of Z
+                ctx.branch("swim.%s.egg_judged" % name)
+                if re_ > rw and z0 < ceil:
+                    ctx.oracle(dz > 0, "C16.%s.egg_direction" % name, site,
+                               "egg denser than the water (%r > %r) at Z=%r but dZ=%r" % (re_, rw, z0, dz), csd)
+                if re_ < rw and z0 > floor:
+                    ctx.oracle(dz < 0, "C16.%s.egg_direction" % name, site,
+                               "egg lighter than the water (%r < %r) at Z=%r but dZ=%r" % (re_, rw, z0, dz), csd)
+                if floor < z0 + step < ceil and floor <= z0 <= ceil:
+                    # the speed is the sinking speed of the *configured* diameter (species default or its override).
+                    # 1e-6 relative: the code narrows the velocity and its product with dt to float32 (2 x 6e-8);
+                    # 1e-12*(1+Z): rounding of Z + step
+                    ctx.oracle(abs(dz - step) <= 1e-6 * abs(step) + 1e-12 * (1 + abs(z0)), "C16.%s.egg_speed" % name, site,
+                               "egg moved %r in dt=%r, sinking speed of diameter %r is %r (step %r)" % (dz, dt, sp["egg_diam"], v, step), csd)
+                continue
             Eb = res["meta"]["light0"][i] * math.exp(-case["k"] * b["z"][i])
             des = float(sp["light"])
+            if float(sp["swim_speed"]) == 0:
+                # swim speed 0: the larva is passive whatever the light (it only is put back into its depth band)
+                if lo <= z0 <= hi:
+                    ctx.branch("swim.%s.passive_larva" % name)
+                    ctx.oracle(dz == 0, "C16.%s.passive_larva_moves" % name, site,
+                               "swim_speed 0 but dZ=%r (light at depth %r, preferred %r)" % (dz, Eb, des), cs)
+                continue
             if abs(Eb - des) < 1e-9 * max(1, des):
                 continue
+            ctx.branch("swim.%s.larva_judged" % name)
+            if abs(Eb - des) < 0.2 * des:
+                ctx.branch("swim.%s.larva_near_isolume" % name)
             if Eb > des and b["z"][i] < hi:
                 ctx.oracle(dz > 0, "C16.%s.light_at_depth" % name, site,
                            "light at depth %r > preferred %r (surface %r, k=%r, Z=%r) but dZ=%r" % (Eb, des, res["meta"]["light0"][i], case["k"], b["z"][i], dz), cs)
             if Eb < des and b["z"][i] > lo:
                 ctx.oracle(dz < 0, "C16.%s.light_at_depth" % name, site,
                            "light at depth %r < preferred %r (surface %r, k=%r, Z=%r) but dZ=%r" % (Eb, des, res["meta"]["light0"][i], case["k"], b["z"][i], dz), cs)
+        elif name == "egg":
+            if not no_mixing(case, res, i):
+                continue
+            v, rw, re_ = egg_speed(a["temp"][i], a["salt"][i], case["buoy"][i], case["diam"])
+            step = v * dt
+            csd = dict(cs, dens_water=rw, dens_egg=re_, speed=v)
+            if re_ == rw:
+                ctx.branch("swim.egg.neutral")
+                ctx.oracle(dz == 0, "C16.egg.direction", site, "neutrally buoyant egg moved: dZ=%r" % dz, csd)
+                continue
+            if abs(step) <= 1e-9 * (1 + abs(z0)):
+                ctx.branch("swim.egg.step_below_resolution"); continue
+            ctx.branch("swim.egg.judged")
+            if re_ > rw and z0 + step < 200.0 * (1 - 1e-9):          # (from 200 m on the egg is put back to 199 m)
+                ctx.oracle(dz > 0, "C16.egg.direction", site,
+                           "egg denser than the water (%r > %r) at Z=%r but dZ=%r" % (re_, rw, z0, dz), csd)
+            if re_ < rw and z0 > abs(step) * (1 + 1e-9):             # (closer to the surface the egg is mirrored back below it)
+                ctx.oracle(dz < 0, "C16.egg.direction", site,
+                           "egg lighter than the water (%r < %r) at Z=%r but dZ=%r" % (re_, rw, z0, dz), csd)
         elif name == "salmon_lice":
-            if case["D"] or not (1e-3 < b["z"][i] < 18.9):
+            if not no_mixing(case, res, i) or not (1e-3 < b["z"][i] < 18.9):
                 continue
             Eb = res["meta"]["light0"][i] * math.exp(-0.2 * b["z"][i])
             salt = a["salt"][i]
+            below_step = not (b["z"][i] > 5e-4 * case["dt"] + 1e-9)
+            if abs(Eb - 0.01) < 0.2 * 0.01:
+                ctx.branch("swim.salmon_lice.near_light_threshold")
             if salt < 20:
                 ctx.oracle(dz > 0, "C16.salmon_lice.down_in_fresh", site, "salt %r but dZ=%r" % (salt, dz), cs)
             elif salt >= 32 and Eb >= 0.0100001 and b["z"][i] > 5e-4 * case["dt"] + 1e-9:
@@ -214,18 +394,201 @@ def swim_oracle(ctx, name, case, res):
                 ctx.oracle(dz < 0, "C16.salmon_lice.up_in_light", site, "light %r, salt %r but dZ=%r" % (Eb, salt, dz), cs)
             elif salt >= 32 and Eb < 0.0099999:
                 ctx.oracle(dz == 0, "C16.salmon_lice.moves_in_dark", site, "light %r, salt %r but dZ=%r" % (Eb, salt, dz), cs)
+            elif 20 <= salt < 32:
+                # inside the tolerance windows.  The stage is the one after the ageing of this update; the tolerance of
+                # a copepodid lies in (20, 28], that of a nauplius in (30, 32] (documented: 28 - 8r, 32 - 2r, r uniform)
+                naup = bool(a["age"][i] < 40)
+                t_lo, t_hi = (30.0, 32.0) if naup else (20.0, 28.0)
+                r = res.get("r")
+                csd = dict(cs, nauplius=naup, light=Eb, r=None if r is None else float(r[i]))
+
+                def by_light(pred, why):
+                    if Eb >= 0.0100001 and not below_step:
+                        ctx.oracle(dz < 0, pred, site, "%s, light %r: must swim up, dZ=%r" % (why, Eb, dz), csd)
+                    elif Eb < 0.0099999:
+                        ctx.oracle(dz == 0, pred, site, "%s, light %r: must not move, dZ=%r" % (why, Eb, dz), csd)
+                if salt < t_lo:
+                    ctx.branch("swim.salmon_lice.nauplius_below_30")
+                    ctx.oracle(dz > 0, "C16.salmon_lice.down_in_fresh", site,
+                               "nauplius (age' %r) in salt %r < 30 but dZ=%r" % (a["age"][i], salt, dz), csd)
+                elif salt >= t_hi:
+                    ctx.branch("swim.salmon_lice.copepodid_from_28")
+                    by_light("C16.salmon_lice.up_in_light" if Eb >= 0.01 else "C16.salmon_lice.moves_in_dark",
+                             "copepodid (age' %r) in salt %r >= 28 is not too fresh" % (a["age"][i], salt))
+                elif r is not None:
+                    tol = (32 - r[i] * 2) if naup else (28 - r[i] * 8)
+                    ctx.branch("swim.salmon_lice.inside_tolerance_window")
+                    if salt < tol:
+                        ctx.oracle(dz > 0, "C16.salmon_lice.tolerance_rule", site,
+                                   "salt %r below the tolerance %r (nauplius=%r, r=%r) but dZ=%r" % (salt, tol, naup, r[i], dz), csd)
+                    else:
+                        by_light("C16.salmon_lice.tolerance_rule", "salt %r not below the tolerance %r (nauplius=%r, r=%r)" % (salt, tol, naup, r[i]))
         elif name == "shrimp":
             if "pref" not in res["meta"]:
                 continue
             k = int(res["meta"]["int_stage"][i])
+            # position after the module's own mixing step (recorded draw, the code's expression, reflected at the
+            # surface); with mixing off this is the position before the update
+            xi = res.get("xi")
+            z1 = z0
             if case["vm"][k] != 0:
-                continue
+                if xi is None:
+                    continue
+                z1 = z0 + float(np.sqrt(2 * np.float64(case["vm"][k]) * res["ibm"].dt)) * float(xi[i])
+                z1 = -z1 if z1 < 0 else z1
+                ctx.branch("swim.shrimp.judged_after_mixing")
+            # day or night from the light model (the day band starts at sun height 0), not from the module's own copy
             pref = res["meta"]["pref"][i]
-            ctx.oracle(abs(a["z"][i] - pref) <= abs(b["z"][i] - pref) + 1e-12, "C16.shrimp.away_from_preferred", site,
-                       "Z %r -> %r, preferred %r" % (b["z"][i], a["z"][i], pref), cs)
-            if case["vs"][k] > 0 and abs(b["z"][i] - pref) > 1e-9:
-                ctx.oracle(abs(a["z"][i] - pref) < abs(b["z"][i] - pref), "C16.shrimp.not_toward_preferred", site,
-                           "Z %r -> %r, preferred %r" % (b["z"][i], a["z"][i], pref), cs)
+            lon, lat = case["env"].lonlat(case["x"][i:i + 1], case["y"][i:i + 1])
+            L0 = float(M("utils.light").surface_light(case["ts"], lon, lat)[0])
+            if abs(L0 - 5.76) > 1e-9:
+                day = L0 > 5.76
+                mind = (case["mind_d"] if day else case["mind_n"])[k]; maxd = (case["maxd_d"] if day else case["maxd_n"])[k]
+                pref_l = mind + (maxd - mind) * a["q"][i]
+                if pref_l != pref:
+                    ctx.branch("swim.shrimp.day_night_differs_between_copies")
+                pref = pref_l
+                ctx.branch("swim.shrimp.day" if day else "swim.shrimp.night")
+            ctx.oracle(abs(a["z"][i] - pref) <= abs(z1 - pref) + 1e-12, "C16.shrimp.away_from_preferred", site,
+                       "Z %r (after mixing %r) -> %r, preferred %r" % (b["z"][i], z1, a["z"][i], pref), cs)
+            if case["vs"][k] > 0 and abs(z1 - pref) > 1e-9:
+                ctx.oracle(abs(a["z"][i] - pref) < abs(z1 - pref), "C16.shrimp.not_toward_preferred", site,
+                           "Z %r (after mixing %r) -> %r, preferred %r" % (b["z"][i], z1, a["z"][i], pref), cs)
+
+
+# ------------------------------------------------------------------------------------------ generators of this check
+def when(rng):
+    """a timestamp as LADiM hands it out (`datetime64[s]`): any day of the year, any hour, minutes and seconds"""
+    return rnd_ts(rng)[0].astype("datetime64[s]")
+
+
+def scatter(rng, case, keep_xy=False):
+    """per-particle positions on a stub grid whose longitude and latitude vary with them (both hemispheres, the
+    antimeridian); `keep_xy`: saithe with extra_spreading moves X, Y itself, only the origin is varied then"""
+    env = case["env"]; n = len(case["x"])
+    env.lat0 = rng.choice([-80.0, -66.0, -45.0, -10.0, 0.0, 45.0, 60.0, 70.0, 80.0])
+    env.lon0 = rng.choice([-180.0, -170.0, -30.0, 5.0, 20.0, 170.0, 180.0])
+    if keep_xy:
+        return
+    env.laty = rng.choice([0.0, 0.25, -0.25])
+    env.lonx = rng.choice([0.0, 0.5, -0.5])
+    if env.lon0 == 180.0 and env.lonx > 0 or env.lon0 == -180.0 and env.lonx < 0:
+        env.lonx = -env.lonx                                    # longitudes stay inside [-180, 180]
+    case["x"] = np.array([rng.choice([5.0, rng.uniform(1, 19), rng.uniform(1, 19)]) for _ in range(n)])
+    case["y"] = np.array([rng.choice([5.0, rng.uniform(1, 19), rng.uniform(1, 19)]) for _ in range(n)])
+
+
+def near_isolume(ctx, rng, case, thr, k, lo, hi, who=None, p=0.35):
+    """moves particles next to the depth where the surface light attenuated with `k` equals `thr`"""
+    n = len(case["x"])
+    if not n or not k > 0 or not thr > 0:
+        return
+    lon, lat = case["env"].lonlat(case["x"], case["y"])
+    L0 = M("utils.light").surface_light(case["ts"], lon, lat)
+    for i in range(n):
+        if (who is None or who[i]) and L0[i] > thr and rng.random() < p:
+            zs = math.log(L0[i] / thr) / k
+            if lo < zs < hi:
+                # next to it, or up to twice / half as deep (where a wrong extinction coefficient changes the answer)
+                case["z"][i] = min(hi, max(lo, rng.choice([zs - 0.5, zs - 1e-3, zs - 1e-6, zs + 1e-6, zs + 1e-3, zs + 0.5,
+                                                           zs * rng.uniform(0.5, 1.0), zs * rng.uniform(1.0, 2.0)])))
+                ctx.branch("gen.%s.placed_next_to_isolume" % case["kind"])
+
+
+def make_gens(ctx):
+    def lice_gen(rng, n=None):
+        case = ibmrun.lice_case(rng, n)
+        case["ts"] = when(rng)
+        if rng.random() < 0.6:
+            env = case["env"]
+            env.s0 = rng.choice([20.0, 22.0, 24.0, 25.0, 26.0, 27.9, 28.0, 29.0, 30.0, 30.5, 31.0, 31.9, 32.0])
+            env.sz = rng.choice([0.0, 0.0, 0.01])
+            if rng.random() < 0.6:
+                case["D"] = 0.0
+            ctx.branch("gen.salmon_lice.salinity_in_tolerance_windows")
+        scatter(rng, case)
+        if rng.random() < 0.35:
+            # twilight: a longitude (at this time and latitude) where the surface light is such that the 0.01 threshold
+            # is reached inside the 0..19 m band; no mixing, so that the lice next to that depth are judged
+            env = case["env"]
+            lons = np.linspace(-180.0, 180.0, 1441)
+            L = M("utils.light").surface_light(case["ts"], lons, np.full_like(lons, env.lat0))
+            idx = np.flatnonzero((L > 0.0102) & (L < 0.44))
+            if len(idx):
+                env.lon0 = float(lons[rng.choice(idx.tolist())]); env.lonx = 0.0; env.laty = 0.0
+                case["D"] = 0.0
+                if rng.random() < 0.6:
+                    env.s0 = rng.choice([33.0, 34.5, 36.0]); env.sz = 0.0
+                ctx.branch("gen.salmon_lice.twilight")
+                near_isolume(ctx, rng, case, 0.01, 0.2, 0.0, 19.0, p=0.9)
+                return case
+        near_isolume(ctx, rng, case, 0.01, 0.2, 0.0, 19.0, p=0.6)
+        return case
+
+    def larvae_gen(module):
+        def gen(rng, n=None):
+            case = ibmrun.larvae_case(rng, n, module)
+            case["ts"] = when(rng)
+            if module == "saithe":
+                if rng.random() < 0.6:
+                    case["force_normal"] = 0.0          # every normal draw 0: the hard-coded mixing adds nothing
+                    ctx.branch("gen.saithe.normal_draws_zero")
+            elif rng.random() < 0.3:
+                # a parameter overridden with the boundary value 0 (int or float): no preferred light (every lit depth is
+                # too bright), passive larvae, a band that starts at the surface
+                over = dict(case["over"]); sp = dict(case["sp"])
+                key = rng.choice(["light", "min_depth", "swim_speed"])
+                old_lo = float(sp["min_depth"])
+                over[key] = sp[key] = rng.choice([0, 0.0])
+                case["over"] = over; case["sp"] = sp
+                if key == "min_depth":
+                    for i in range(len(case["z"])):
+                        if rng.random() < 0.5:
+                            case["z"][i] = rng.choice([0.0, 1e-9, rng.uniform(0.0, max(old_lo, 1.0))])
+                ctx.branch("gen.larvae.zero_override.%s" % key)
+            elif not case["over"] and rng.random() < 0.8:
+                # single parameters overridden, the others at the species default
+                over = {}; sp = dict(case["sp"])
+                for key, vals in rng.sample([("light", [0.01, 0.5, 50]), ("swim_speed", [0.05, 0.5]),
+                                             ("egg_diam", [0.0005, 0.003]), ("init_larvae_weight", [0.05, 0.2])],
+                                            rng.choice([1, 1, 2])):
+                    over[key] = sp[key] = rng.choice(vals)
+                    ctx.branch("gen.larvae.single_override.%s" % key)
+                case["over"] = over; case["sp"] = sp
+            scatter(rng, case, keep_xy=bool(case.get("spread")))
+            sp = case["sp"]
+            near_isolume(ctx, rng, case, float(sp["light"]), case["k"], float(sp["min_depth"]), float(sp["max_depth"]),
+                         who=case["age"] > float(sp["hatch_day"]))
+            return case
+        return gen
+
+    def shrimp_gen(rng, n=None):
+        case = ibmrun.shrimp_case(rng, n)
+        case["ts"] = when(rng)
+        scatter(rng, case)
+        return case
+    return dict(salmon_lice=lice_gen, larvae=larvae_gen("larvae"), saithe=larvae_gen("saithe"), shrimp=shrimp_gen)
+
+
+def shrimp_time_fallback(ctx, gen):
+    """`diel_migration` reads `state.timestamp` and, for a state without that attribute, `state['time']`: the same
+    particles, draws and time through the fallback must end at the same depths"""
+    from .stubs import NumState
+    for c in range(ctx.n(20, 300)):
+        case = gen(ctx.rng, n=ctx.rng.randrange(1, 7))
+        n = len(case["x"])
+        seed = ctx.sub_seed()
+        res = ibmrun.shrimp_run(case, seed, None, None)
+        st = NumState(X=case["x"].copy(), Y=case["y"].copy(), Z=case["z"].copy(), stage=case["stage"].copy(),
+                      depth_quantile=case["q"].copy(), age=case["age"].copy(), temp=np.zeros(n), salt=np.zeros(n),
+                      length=np.zeros(n), alive=np.ones(n, dtype=bool), active=np.ones(n, dtype=bool), time=case["ts"])
+        res2 = ibmrun.shrimp_run(case, seed, None, None, state=st)
+        ctx.case(key=("shrimp_time_fallback", repr(ibmrun.case_summary(case))), nontrivial=True)
+        ctx.branch("oracle.shrimp.time_fallback")
+        swim_oracle(ctx, "shrimp", case, res2)
+        ctx.oracle(np.array_equal(res["after"]["z"], res2["after"]["z"]), "C16.shrimp.time_fallback_differs",
+                   "ladim_plugins/shrimp/ibm.py", "with state.timestamp: Z' %r, with state['time']: %r"
+                   % (res["after"]["z"].tolist(), res2["after"]["z"].tolist()), dict(case=ibmrun.case_summary(case)))
 
 
 def run(ctx):
@@ -234,7 +597,9 @@ def run(ctx):
         drv.available = False
     translator_validation(ctx, drv)
     oracles(ctx)
-    c05.run(ctx, modules=["larvae", "saithe", "salmon_lice", "shrimp", "egg"], oracle=swim_oracle)
+    gens = make_gens(ctx)
+    shrimp_time_fallback(ctx, gens["shrimp"])
+    c05.run(ctx, modules=["larvae", "saithe", "salmon_lice", "shrimp", "egg"], oracle=swim_oracle, gens=gens)
 
 
 def replay(payload):
